@@ -130,7 +130,6 @@ class Conformers(list):
         # Delete from the end of the list to preserve the order when deleting
         for i, idx in enumerate(reversed(idxs_with_energy)):
             conf = self[idx]
-            idxs_with_energy = [j for j in idxs_with_energy if j < len(self)]
 
             if np.abs(conf.energy - avg_e) / std_dev_e > n_sigma:
                 logger.warning(
@@ -144,10 +143,11 @@ class Conformers(list):
                 # The first (last) conformer must be unique
                 continue
 
+            # Compare to the conformers that remain, as deleting shifts indexes
             if any(
-                np.abs(conf.energy - self[o_idx].energy) < e_tol
-                for o_idx in idxs_with_energy
-                if o_idx != idx
+                np.abs(conf.energy - other.energy) < e_tol
+                for other in self
+                if other is not conf and other.energy is not None
             ):
                 logger.info(f"Conformer {idx} had a non unique energy")
                 del self[idx]
